@@ -734,7 +734,16 @@ func (e *Engine) removeViaCleaner(op Op) *Fail {
 			err := s.RemoveDiffDisk(a.Source)
 			e.fixDrainer()
 			if err != nil {
-				return fail("removedisk|candidate|refused", fmt.Sprintf("RemoveDiffDisk(%s): %v", a.Source, err), "C11")
+				// the engine may refuse (a snapshot whose name was used before still has
+				// the old namesake's child on its books): a refusal deletes nothing
+				e.tracef("removediffdisk %s refused: %v", a.Source, err)
+				e.Labels["remove:refused-by-engine"]++
+				for _, suf := range []string{"", ".meta"} {
+					if _, serr := os.Stat(filepath.Join(e.Dir, a.Source+suf)); serr != nil {
+						return fail("removedisk|refused-but-files-removed", fmt.Sprintf("RemoveDiffDisk(%s) was refused (%v) but %s%s is gone while the snapshot is still in the chain", a.Source, err, a.Source, suf), "C11", "C12")
+					}
+				}
+				return nil
 			}
 		}
 	}
